@@ -129,6 +129,19 @@ class RealEnv:
             f = f * hi / 4
         return f
 
+    def dim(self, name, lo=1, hi=4):
+        if self.given is not None:
+            v = self.given[name]['values']
+            return int(Fraction(int(v[0]), int(v[1])))
+        return seeded_int(self.seed, name, 0, lo, hi)
+
+    def stensor(self, name, shape, dtype='float64'):
+        g = self.tn.Generator().manual_seed(12345)
+        return self.tn.randn([int(x) for x in shape], generator=g, dtype=self.tn.float64).to(self.dt(dtype))
+
+    def internal(self, e):
+        return False
+
     def const_tensor(self, nested, dtype='float64'):
         return self.tn.tensor(nested, dtype=self.dt(dtype))
 
